@@ -91,6 +91,9 @@ type TupleV []Value
 type ChanV struct {
 	id     int
 	closed bool
+	// sequential channel model (CHANMODEL): buffered values in FIFO order
+	q   []Value
+	cap int
 }
 
 // iterator for Range/Next
